@@ -353,7 +353,10 @@ def first_difference(what, a, b):
     for name, x, y in zip(CLAUSES[what], a, b):
         if x != y:
             if what == 'basis' and name == 'matrix':
-                return 'storage-kind' if x[0] != y[0] else 'values'
+                if x[0] != y[0]:
+                    return 'storage-kind'
+                i = 1 if x[0] == 'sparse' else 2
+                return 'shape' if x[i] != y[i] else 'values'
             if name == 'values' and x[:2] == y[:2]:
                 return 'values'
             if name == 'values':
@@ -386,6 +389,27 @@ def snapshot(what, x):
     else:
         body = ('dense', _raw(T))
     return (body, sorted(x.__dict__), snapshot('grid', x.grid))
+
+
+def arrays_of(what, x):
+    """every ndarray the object stores (for the shared-memory check of in-memory round trips)"""
+    if x is None:
+        return []
+    if what == 'grid':
+        out = []
+        for v in x.coords.__dict__.values():
+            out += [a for a in (v if isinstance(v, list) else [v]) if isinstance(a, np.ndarray)]
+        if isinstance(x._weights, np.ndarray):
+            out.append(x._weights)
+        return out
+    if what == 'field':
+        return [np.asarray(x)] + arrays_of('grid', x.grid)
+    T = x._transformation_matrix
+    return ([T.data, T.indices, T.indptr] if x.is_sparse else [T]) + arrays_of('grid', x.grid)
+
+
+def shares_memory(what, x, y):
+    return any(np.shares_memory(a, b) for a in arrays_of(what, x) for b in arrays_of(what, y))
 
 
 # ---------------------------------------------------------------------------------------------
@@ -465,7 +489,8 @@ def round_trips(spec, tmpdir):
                     y = cls.from_dict(tree)
                 obs['dict_tree'] = encode(tree)
                 obs['dict_back'] = encode(y.to_dict())
-                compare(y, 'to_dict/from_dict', 'dict')
+                if compare(y, 'to_dict/from_dict', 'dict') and shares_memory(what, x, y):
+                    fails.append(('aliasing:%s:dict' % what, 'from_dict(to_dict(x)) shares array memory with x: it is not a separate object'))
             except MachineryError:
                 raise
             except Exception as e:  # noqa
@@ -476,7 +501,8 @@ def round_trips(spec, tmpdir):
             try:
                 with _NewStyle(spec.get('newstyle')):
                     y = fn(x)
-                compare(y, route, 'pickle')
+                if compare(y, route, 'pickle') and route != 'deepcopy' and shares_memory(what, x, y):
+                    fails.append(('aliasing:%s:pickle' % what, '%s shares array memory with the original' % route))
             except Exception as e:  # noqa
                 fails.append(('%s:pickle:%s' % (what, ck), '%s raised %s: %s' % (route, type(e).__name__, str(e)[:100])))
             unchanged(route, 'pickle')
@@ -685,7 +711,7 @@ def run(ctx):
                         'dtype equality is taken up to byte order: FITS images come back big endian']
     rng = ctx.rng
     big = ctx.tier == 'thorough'
-    ng, nf, nb = ctx.scale((25, 45, 40), (500, 1000, 900))
+    ng, nf, nb = ctx.scale((40, 90, 80), (500, 1000, 900))
     specs = [copy.deepcopy(s) for s in DIRECTED]
     for _ in range(ng):
         specs.append(gen_grid(rng, big))
